@@ -1,7 +1,7 @@
 (* C14 -- Message streams are fragmentation-proof and gated by the handshake.
    Property theorems only; proofs live in Proofs/FrameProofs.v, Proofs/ShakeProofs.v. *)
 From Coq Require Import List ZArith Bool.
-From DV Require Import Model.Frame Model.Shake Proofs.FrameProofs Proofs.ShakeProofs.
+From DV Require Import Model.Frame Model.Shake Proofs.FrameProofs Proofs.ShakeProofs Proofs.ShakeAfter.
 Import ListNotations.
 Open Scope Z_scope.
 
@@ -178,3 +178,68 @@ Proof.
   split; [|split]; eexists; eexists; (split; [vm_compute; reflexivity|]); split;
   try reflexivity; discriminate.
 Qed.
+
+(* ======================= at and after a successful phase 5 ================= *)
+
+(* Bytes that arrive together with the final handshake packet are delivered
+   afterwards, in order: when the chunk d completes a verified, correctly
+   echoing reply (rlen > 0), the rest of d and all later chunks are handled
+   exactly as a fresh wrapped protocol would handle rest, later_1, later_2 ...;
+   hence (C14_channel_prefix / C14_channel) the trace depends only on the byte
+   string rest ++ later_1 ++ later_2 ..., not on how it is cut. *)
+Theorem C14_after : forall O ch w d reply rest later,
+  wrestored w = false -> winner w = cinit -> wphase w = P5 ->
+  wlen w = Z.of_nat (length reply) -> (0 < length reply)%nat ->
+  wbuf w ++ d = reply ++ rest -> verify O reply = true -> echo_ok O reply = true ->
+  let tr := snd (sconn_run O ch (mkS w true) (d :: later)) in
+  tr = snd (conn_run ch cinit (rest :: later))
+  /\ cut tr = cut (whole ch finit (rest ++ concat later))
+  /\ (quiet (removelast (whole ch finit (rest ++ concat later))) = true ->
+      tr = whole ch finit (rest ++ concat later)).
+Proof.
+  intros O ch w d reply rest later Hr Hi Hp Hl Hpos Hb Hv He tr.
+  assert (E : tr = snd (conn_run ch cinit (rest :: later)))
+    by (apply (S_after O ch w d reply rest later); auto; split; assumption).
+  split; [exact E|]. rewrite E. split.
+  - apply (C14_channel_prefix ch (rest :: later)).
+  - apply (C14_channel ch (rest :: later)).
+Qed.
+Print Assumptions C14_after.
+
+(* The hypothesis rlen > 0 is needed: an oracle that validated an EMPTY reply
+   (real PGP cannot) would let phase 6 run in the same call and close the
+   connection after the deliveries. *)
+Theorem C14_after_empty_reply_refuted : exists O ch chunks,
+  snd (sconn_run O ch sinit chunks) = [Sent [0;0;0;1;99]; Deliver [5]; Close].
+Proof.
+  exists (oracle_of [[7]; []] [[]] [99]), (chan_of [] [[5]]),
+         [[0;0;0;4; 0;0;0;1; 7; 0;0;0;4; 0;0;0;0; 0;0;0;1;5]].
+  vm_compute. reflexivity.
+Qed.
+Print Assumptions C14_after_empty_reply_refuted.
+
+(* Handshake outcome independent of chunking -- PARTIAL.  Proved: (a) once
+   dataReceived is handed back the connection is the wrapped protocol, so its
+   trace is chunk independent (below); (b) at the phase-5 boundary the trace
+   depends only on rest ++ later (C14_after); (c) whatever the chunking, no
+   delivery before phase 6 and fail-closed (C14_gate, C14_fail_closed).
+   Missing: that the cut positions INSIDE the packets of phases 1-5 do not
+   change which phase fails / that the challenge is sent once; that part is
+   covered by the correspondence only (every 1- and 2-cut, byte-wise and random
+   cuts of 15 scenarios x 3 channels on the real wrapper and on the model). *)
+Theorem C14_shake_chunking_partial : forall O ch w chunks,
+  wrestored w = true -> clive (winner w) = true -> iter (cfs (winner w)) = None ->
+  cut (snd (sconn_run O ch (mkS w true) chunks))
+  = cut (whole ch (cfs (winner w)) (concat chunks)).
+Proof.
+  intros O ch w chunks Hr Hl Hf.
+  pose proof (S_restored_run O ch chunks w Hr) as R. rewrite Hl in R. rewrite R.
+  destruct (winner w) as [fs lv]. cbn [clive cfs] in *. subst lv. apply F_conn_cut, Hf.
+Qed.
+Print Assumptions C14_shake_chunking_partial.
+
+Example C14_after_example :
+  let w := sw (fst (sconn_run ex_O ex_ch sinit [firstn 17 ex_stream])) in
+  wrestored w = false /\ winner w = cinit /\ wphase w = P5 /\ wlen w = 1 /\ wbuf w = []
+  /\ snd (sconn_run ex_O ex_ch (mkS w true) [[8; 0;0]; [0;1]; [5]]) = [Deliver [5]].
+Proof. vm_compute. repeat split; reflexivity. Qed.
